@@ -49,6 +49,12 @@ func (m *mySQLUndoUpdateExecutor) ExecuteOn(ctx context.Context, dbType types.DB
 		return nil
 	}
 
+	// a statement that changed no row leaves nothing to restore (and no row to build the undo
+	// statement from)
+	if m.sqlUndoLog.BeforeImage == nil || len(m.sqlUndoLog.BeforeImage.Rows) == 0 {
+		return nil
+	}
+
 	undoSql, _ := m.buildUndoSQL(dbType)
 	stmt, err := conn.PrepareContext(ctx, undoSql)
 	if err != nil {
